@@ -39,6 +39,14 @@ def IDENT(value):
     return value
 
 
+def ONLYWRAP(func):
+    """A decorator that only wraps."""
+    @functools.wraps(func)
+    def only_wrapper(*args, **kwargs):
+        return func(*args, **kwargs)
+    return only_wrapper
+
+
 NS = types.SimpleNamespace(sub=types.SimpleNamespace())
 
 
